@@ -26,7 +26,9 @@ def standin(d):
     return p
 
 
-NAMES = ["src/lib.rs", "src/main.rs", "a/b/c.rs", "x.rs", "README.md", "src/deep/er/mod.rs", "build.rs", "src/x.txt"]
+NAMES = ["src/lib.rs", "src/main.rs", "a/b/c.rs", "x.rs", "README.md", "src/deep/er/mod.rs", "build.rs", "src/x.txt",
+         # the filter is anchored (^F$): a path that only CONTAINS a match must not be selected
+         "docs/guide.rst", "src/lib.rs.orig", "src/tpl.rs.in", "a.rs/notes.txt", "old/lib.rs/x"]
 SECTIONS = ["", "fn main() {", "impl Foo {", "let y = x +1;", "    a +2,3 b", "x @@ y", "+++ z"]
 
 
